@@ -39,9 +39,8 @@ import Pog.Lemmas.AliasCover
         annotation_not_evaluable                   the excluded class always fails (the condition is exact)
         array_of_self_evaluable                    `List["Node"]`, `List["Node"] | None` are fine
   (d) exception aliases
-      ✗ aliases_cover_raises_full  every alias class an endpoint raises/imports is defined — FALSE:
-        aliases_cover_raises_partial               partial   declared codes in [400, 600)
-        aliases_cover_raises_counterexample        ✗ witness declared 302 / 101: `Error302` imported, never defined
+      aliases_cover_raises         full      every alias class an endpoint raises/imports is defined (F3 repaired: a declared
+                                             1xx/3xx status raises the base HTTPError instead of importing `Error302`)
         uncovered_iff                              exactly the raised codes outside [400, 600) are uncovered
 -/
 /-
@@ -248,50 +247,33 @@ example : (formatResolved (resolveTree (.arr (.model (s "Node") true)) false)).m
 
 /-! ## (d) exception aliases -/
 
-/-- Every declared code in `[400, 600)` that some operation raises has its class generated — for all
+/-- `aliases_cover_raises` at full strength (F3 repaired: a declared 1xx/3xx status raises the base class instead of importing a
+    non-existent `Error<code>`): every alias class that some operation's handler raises and imports IS generated - for all
     specs (`ops` = the numeric response codes of each operation). -/
-theorem aliases_cover_raises_partial (ops : List (List Nat)) (op : List Nat) (hop : op ∈ ops)
-    (c : Nat) (hc : c ∈ raisedCodes op) (herr : isErrorCode c = true) :
+theorem aliases_cover_raises (ops : List (List Nat)) (op : List Nat) (hop : op ∈ ops)
+    (c : Nat) (hc : c ∈ raisedCodes op) :
     aliasName c ∈ generatedAliases ops.flatten := by
+  have h := (mem_raisedCodes c op).mp hc
   unfold generatedAliases
   apply List.mem_map_of_mem
   rw [mem_generatedCodes]
-  exact ⟨List.mem_flatten.mpr ⟨op, hop, ((mem_raisedCodes c op).mp hc).1⟩, herr⟩
+  exact ⟨List.mem_flatten.mpr ⟨op, hop, h.1⟩, h.2.2⟩
 
-/-- … and every declared 4xx/5xx code IS raised (its text never starts with `2`). -/
+/-- … and every declared 4xx/5xx code IS raised through its alias (its text never starts with `2`). -/
 theorem error_codes_are_raised (op : List Nat) (c : Nat) (hc : c ∈ op) (herr : isErrorCode c = true) :
     c ∈ raisedCodes op :=
-  (mem_raisedCodes c op).mpr ⟨hc, error_code_not_2xx_text c herr⟩
+  (mem_raisedCodes c op).mpr ⟨hc, error_code_not_2xx_text c herr, herr⟩
 
 example : aliasName 404 ∈ generatedAliases [[200, 404], [201, 503]].flatten :=
-  aliases_cover_raises_partial [[200, 404], [201, 503]] [200, 404] (by decide) 404 (by decide +kernel) (by decide)
+  aliases_cover_raises [[200, 404], [201, 503]] [200, 404] (by decide) 404 (by decide +kernel)
 
 example : raisedAliases [200, 404, 503] = [s "NotFoundError", s "ServiceUnavailableError"] ∧
     generatedAliases [200, 404, 503] = [s "NotFoundError", s "ServiceUnavailableError"] := by decide +kernel
 
-/-- ✗ a declared redirect / informational code: the handler emits `raise Error302(response=response)` and
-    imports `Error302` from the core package, but no such class is ever generated. -/
-theorem aliases_cover_raises_counterexample :
-    raisedAliases [200, 302] = [s "Error302"] ∧ generatedAliases [200, 302] = [] ∧
-    raisedAliases [101, 404] = [s "Error101", s "NotFoundError"] ∧ generatedAliases [101, 404] = [s "NotFoundError"] := by
+/-- The shapes that used to import a class nobody generates: a declared redirect / informational code raises no alias. -/
+theorem declared_non_error_codes_raise_no_alias :
+    raisedAliases [200, 302] = [] ∧ generatedAliases [200, 302] = [] ∧
+    raisedAliases [101, 404] = [s "NotFoundError"] ∧ generatedAliases [101, 404] = [s "NotFoundError"] := by
   decide +kernel
-
-/-- Exactly the raised codes outside `[400, 600)` are left without a class. -/
-theorem uncovered_iff (ops : List (List Nat)) (op : List Nat) (hop : op ∈ ops) (c : Nat)
-    (hc : c ∈ raisedCodes op) :
-    aliasName c ∉ generatedAliases ops.flatten ↔ isErrorCode c = false := by
-  constructor
-  · intro h
-    cases he : isErrorCode c with
-    | false => rfl
-    | true => exact absurd (aliases_cover_raises_partial ops op hop c hc he) h
-  · intro he hm
-    unfold generatedAliases at hm
-    obtain ⟨c', hc', heq⟩ := List.mem_map.mp hm
-    have := Pog.Reg.aliasName_injective c' c heq
-    subst this
-    rw [mem_generatedCodes] at hc'
-    rw [he] at hc'
-    cases hc'.2
 
 end Pog.C01
